@@ -199,6 +199,7 @@ def rules_stream(ctx, dts):
     rcases, vcases, vmeta = [], {dt: [] for dt in dts}, {dt: [] for dt in dts}
     fired = {"RClipClip": 0, "RClipRelu": 0, "RReluClip": 0}
     unsafe_declined = 0
+    nan_hosts = nan_fired = 0
     for i, (kind, l1, h1, l2, h2) in enumerate(insts):
         dt = dts[i % len(dts)]
         bounds = (l1, h1, l2, h2)
@@ -217,6 +218,8 @@ def rules_stream(ctx, dts):
             ctx.tie_broken("harness", f"{FAM}:rules", f"onnxruntime cannot run the host {kind}{bounds}: {e0}")
             continue
         did = U.ops(new) == ["Clip"]
+        nan_hosts += has_nan
+        nan_fired += has_nan and did
         if not did:
             if has_nan or has_inf:
                 unsafe_declined += 1        # a repaired rule may refuse special bounds: never a C05 violation
@@ -268,7 +271,9 @@ def rules_stream(ctx, dts):
     ctx.obligation("correspondence xval clip/relu fusions: onnxruntime(host) = XVal.lhs_* and onnxruntime(rewritten) = XVal.rhs on every point "
                    "(so the _refuted witnesses and the side conditions safe_relu / safe_clipclip are the observed behaviour)", nbad == 0,
                    f"{ntot} points, {nbad} differ")
-    ctx.cover(xval_clip_hosts=len(insts), xval_clip_fired=dict(fired), xval_clip_special_bounds_declined=unsafe_declined)
+    # which variant is under test: as read (a NaN bound is fused: finding C05:clip:nan-bound) or repaired (declined; proposed_fixes C05_02)
+    variant = "repaired: NaN bounds declined" if nan_hosts and not nan_fired else f"as read: {nan_fired}/{nan_hosts} NaN-bound hosts fused"
+    ctx.cover(xval_clip_hosts=len(insts), xval_clip_fired=dict(fired), xval_clip_special_bounds_declined=unsafe_declined, xval_clip_variant=variant)
     return fired
 
 
@@ -282,6 +287,7 @@ def minmax_stream(ctx, dts):
               ("MaxMinClip", [-2.0, 0.0], [3.0, INF])]
     cases, meta = {dt: [] for dt in dts}, {dt: [] for dt in dts}
     fired = {k: 0 for k in kinds}
+    nan_hosts = nan_fired = 0
     for i, (k, cs, ds) in enumerate(insts):
         dt = dts[i % len(dts)]
         inits = [U.init(f"c{j}", np.array(v, dt)) for j, v in enumerate(cs)] + [U.init(f"d{j}", np.array(v, dt)) for j, v in enumerate(ds)]
@@ -303,6 +309,8 @@ def minmax_stream(ctx, dts):
             continue
         did = len(U.ops(new)) == 1
         fired[k] += did
+        nan_hosts += has_nan
+        nan_fired += has_nan and did
         if did and (yn is None or not base.same_outputs([yh], [yn])):
             cls = "nan-bound" if has_nan else f"{k}:special-values-differ"
             ctx.violation(f"C05:minmax:{cls}", f"{k} constants {cs} {ds} {dt}: rewritten model differs from the original on onnxruntime",
@@ -328,7 +336,8 @@ def minmax_stream(ctx, dts):
                 ctx.tie_broken("correspondence", f"{FAM}:minmax", f"{dt} {meta[dt][off + i]}: onnxruntime(host / rewritten) differs from XVal.mm_lhs / mm_rhs")
     ctx.obligation("correspondence xval min/max rules: onnxruntime(host) = XVal.mm_lhs, onnxruntime(rewritten) = XVal.mm_rhs on every point "
                    "(constants NaN / +-inf included)", nbad == 0, f"{ntot} points, {nbad} differ")
-    ctx.cover(xval_minmax_hosts=len(insts), xval_minmax_fired=dict(fired))
+    variant = "repaired: NaN constants declined" if nan_hosts and not nan_fired else f"as read: {nan_fired}/{nan_hosts} NaN-constant hosts fused"
+    ctx.cover(xval_minmax_hosts=len(insts), xval_minmax_fired=dict(fired), xval_minmax_variant=variant)
     return fired
 
 
